@@ -24,7 +24,7 @@ from .core import Relation, err_kind
 
 PROP = "C20"
 CLAIMED = False
-COQ_MODULES = ["C20_Check", "C20_Proofs"]
+COQ_MODULES = ["C20_Check", "C20_Proofs", "C20_Proofs2"]
 PROPERTY_MODULE = "C20_Property"
 ALLOWED_AXIOMS = []
 RULE = (
@@ -146,7 +146,8 @@ def structured(rng):
     return {
         "htoks": [str(nsamp), "Admixed"] + list(cfg["pops"]),
         "gens": gt,
-        "mapdir": "maps",
+        # the directory's own name may look like a chromosome; only file names count
+        "mapdir": "maps" if rng.random() < 0.85 else str(rng.choice(["chr9_maps", "maps_chr22", "chrX", "b38.chr1"])),
         "files": files,
         "chroms": list(cfg["chroms"]),
         "popsize": int(cfg["popsize"]) if rng.random() < 0.8 else int(rng.choice([1, 7, 25, 40])),
@@ -492,7 +493,7 @@ def u_frac_range(s, rng):
     fr = s["gens"][j]["fr"]
     if len(fr) < 3:
         return None
-    fr[1], fr[2] = fr[1] + 15000, fr[2] - 15000
+    fr[1], fr[2] = fr[1] + 10000, fr[2] - 10000
     return "u:fractions-outside-0-1-summing-to-1"
 
 
@@ -513,11 +514,6 @@ def u_empty_model(s, rng):
     return "u:empty-model-file-or-header"
 
 
-def u_dir_named_chr(s, rng):
-    s["mapdir"] = str(rng.choice(["chr9_maps", "maps_chr22", "chrX"]))
-    return "u:map-directory-name-contains-chrN"
-
-
 def u_surplus_map(s, rng):
     c = str(rng.choice(s["chroms"]))
     src = s["files"][_file_of(s, c)]
@@ -533,7 +529,42 @@ def u_dup_chrom(s, rng):
 
 
 UNDOC = [u_blank_gen, u_frac_token, u_map_token, u_empty_map, u_mapdir, u_ref, u_sinfo_short, u_unsorted_chroms,
-         u_frac_range, u_first_admixed, u_no_gens, u_empty_model, u_dir_named_chr, u_surplus_map, u_dup_chrom]
+         u_frac_range, u_first_admixed, u_no_gens, u_empty_model, u_surplus_map, u_dup_chrom]
+
+
+INT_TOKENS = ["0", "1", "2", "3", "-1", "+1", "+2", "+0", "-0", "00", "01", "002", "1_0", "1__0", "_1", "1_", "1.0", "1.",
+              "1e0", "1e1", "0x1", "0b1", "1,0", "1+", "+", "-", "++1", "+-1", "1-", "one", "1a", "a1", "2.5", "2_", "12"]
+FLOAT_TOKENS = ["0", "1", "0.5", ".5", "5.", "+.5", "-.5", "1e0", "1E0", "1e-1", "1e+1", "5e-1", "5E-1", "1_0e-1", "0.5_0",
+                "1_.5", "1._5", "._5", "1e_1", "1e1_0", "1e", "e1", ".", "+", "-", "1.2.3", "1e1.5", "0x1", "1d0", "1f",
+                "--1", "+-1", "0.1e1", "00.5", "1e-400", "1e400", "10e-1", "0.25", "0.75", "1/2", "0,5", "1e+", "1e-", ".e1",
+                "0.e0", "+1.", "-0.0", "0_0.5", "05e-1"]
+
+
+def token_cases(rng, positions=None):
+    """one token replaced by a member of a small lexical zoo: exercises the models of int(), float(),
+    numpy's str -> float32 conversion against Python on every position where the code parses a number"""
+    out = []
+    for pos in positions or ["nsamples", "generation", "fraction", "map-chrom", "map-cm", "map-bp"]:
+        toks = FLOAT_TOKENS if pos in ("fraction", "map-cm") else INT_TOKENS + (["X", "x", "23"] if pos == "map-chrom" else [])
+        for t in toks:
+            s = structured(rng)
+            s["only_bp"] = True
+            if pos == "nsamples":
+                s["htoks"][0] = t
+            elif pos == "generation":
+                renumber_more_lines(s, rng)
+                j, _ = pick_line(len(s["gens"]), rng)
+                s["gens"][j]["g"] = t
+            elif pos == "fraction":
+                j = int(rng.integers(0, len(s["gens"])))
+                k = int(rng.integers(0, len(s["gens"][j]["fr"])))
+                s["gens"][j]["fr"][k] = t
+            else:
+                rows = s["files"][_file_of(s, s["chroms"][0])][1]
+                i, _ = pick_line(len(rows), rng)
+                rows[i][{"map-chrom": 0, "map-cm": 2, "map-bp": 3}[pos]] = t
+            out.append(render(s, rng, f"u:token-{pos}"))
+    return out
 
 
 def gen_front(rng, n):
@@ -552,7 +583,9 @@ def gen_front(rng, n):
         if label is None:
             continue
         out.append(render(s, rng, label))
-    return out
+    toks = token_cases(rng)
+    pick = rng.choice(len(toks), size=min(len(toks), max(10, n // 12)), replace=False)
+    return out + [toks[int(j)] for j in sorted(pick)]
 
 
 # ---------------------------------------------------------------------------
@@ -709,7 +742,8 @@ def vin_term(inp, listing, isdir, chroms=None, region="same", only_bp=None):
     fl = []
     for p in listing:
         rows = files.get(os.path.basename(p), [])
-        fl.append(f"({S(p)}, {L.lst(rows, S)})")
+        # the chromosome is looked for in the file's NAME (not in the directory part of the path)
+        fl.append(f"({S(os.path.basename(p))}, {L.lst(rows, S)})")
     ref = inp["ref"]["samples"] if inp["ref"]["kind"] in ("vcf", "pgen") else None
     reg = inp["region"] if region == "same" else region
     return (
@@ -733,7 +767,7 @@ class Front(Relation):
     coq_case_type = "vcase"
     coq_model = "model_front"
     coq_imports = ["C20_Model"]
-    budget = {"quick": 400, "thorough": 6000}
+    budget = {"quick": 1100, "thorough": 12000}
     max_cases_per_shard = 70
     max_chars_per_shard = 110_000
     anchors = [("haptools/sim_genotype.py", "validate_params"), ("haptools/sim_genotype.py", "_prepare_coords"),
@@ -752,7 +786,7 @@ class Front(Relation):
                 label = m(s, rng)
                 if label is not None:
                     out.append(render(s, rng, label))
-        return out
+        return out + token_cases(rng)
 
     def run_impl(self, inp):
         return in_tempdir(lambda d: run_pipeline(inp, d))
@@ -831,7 +865,8 @@ class Front(Relation):
             what = f"refused with message class {f['reject']}"
         else:
             what = f"{obs.get('stage')} raised {f['cls']}"
-        return f"front input {lab}, only_bp={inp['only_bp']}, region={'yes' if inp['region'] else 'no'}: {what}"
+        flag = " with --only_breakpoint" if (num == "12" and inp["only_bp"]) else ""
+        return f"front input {lab}{flag}: {what}"
 
 
 # ---------------------------------------------------------------------------
@@ -966,7 +1001,7 @@ class Cli(Relation):
     coq_case_type = "clicase"
     coq_model = "model_cli"
     coq_imports = ["C20_Model"]
-    budget = {"quick": 160, "thorough": 2500}
+    budget = {"quick": 400, "thorough": 4000}
     max_cases_per_shard = 120
     anchors = [("haptools/__main__.py", "simgenotype"), ("haptools/sim_genotype.py", "validate_params"),
                ("haptools/sim_genotype.py", "_prepare_coords")]
@@ -1030,7 +1065,9 @@ class Cli(Relation):
         f = obs.get("front") if isinstance(obs, dict) else None
         what = "unobserved" if f is None else "accepted" if "accept" in f else \
             f"refused with message class {f['reject']}" if "reject" in f else f"raised {f['cls']}"
-        return f"cli {inp['label']} only_bp={inp['only_bp']}: {what}"
+        rk = inp["label"].split()[0]
+        flag = " with --only_breakpoint" if (rk == "region-start>end" and inp["only_bp"]) else ""
+        return f"cli {rk}{flag}: {what}"
 
 
 RELATIONS = [Front(), Cli()]
